@@ -506,7 +506,34 @@ def r11_10(ctx):
     ctx.floor(n, 3, "mutations of Console's instance containers")
 
 
-RULES = [r11_1, r11_2, r11_3, r11_4, r11_5, r11_6, r11_7, r11_8, r11_9, r11_10]
+def r11_11(ctx):
+    ctx.rule("R11.11", "a refresh is written while the display lock is held: in Live.refresh / Progress.refresh every `with self.console:` buffer context (whose exit renders and writes the frame) is entered with the display's lock already held - an earlier item of the same with statement or an enclosing one - so the lock is released only after the write; with the items the other way round the lock is dropped first and a second refresh can erase as many rows as the first one rendered, not as many as are on screen")
+    n = 0
+    for spec, lock in (("live:Live", ("Live", "_lock")), ("progress:Progress", ("Progress", "_lock"))):
+        f = ctx.repo.cls(spec).method("refresh")
+        if f is None:
+            raise AnchorVanished(f"{spec}.refresh not found")
+        al = alias_map(f.node)
+        for x in walk_local(f.node):
+            if not isinstance(x, ast.With):
+                continue
+            items = [norm(expand_alias(i.context_expr, al)) for i in x.items]
+            if "self.console" not in items:
+                continue
+            idx = items.index("self.console")
+            inner_lock = any(isinstance(y, ast.With) and y is not x and any(norm(expand_alias(i.context_expr, al)) == "self._lock" for i in y.items) for y in ast.walk(x))
+            if "self._lock" not in items and not inner_lock and lock not in get_cg(ctx)[1].held_lex(f, x):
+                continue  # no display lock involved here at all (the branch for files / dumb terminals after stop)
+            n += 1
+            # refresh() is public API: only what the method itself acquires counts, not what its internal callers happen to hold
+            cg_, locks_ = get_cg(ctx)
+            held_before = lock in locks_.held_lex(f, x) or "self._lock" in items[:idx]
+            ctx.check(held_before, f.fq, short(x), f"{f.module.relpath}:{x.lineno}", "the console context is entered (and left) inside the display lock",
+                      f"`with {', '.join(items)}:` enters the console's buffer context before the display lock (or without it): the lock is released before the buffered frame is written, so another refresh can interleave between computing the erase sequence and writing it")
+    ctx.floor(n, 1, "`with self.console` contexts in refresh()")
+
+
+RULES = [r11_1, r11_2, r11_3, r11_4, r11_5, r11_6, r11_7, r11_8, r11_9, r11_10, r11_11]
 
 
 def _xcheck(ctx):
